@@ -400,16 +400,12 @@ Proof.
   destruct (call_all st1 l m t src port) as [st2 o2]. simpl in *. assumption.
 Qed.
 
-Lemma Inv_dispatch_keys : forall ks st m t src port, Inv st -> Inv (fst (dispatch_keys st ks m t src port)).
-Proof.
-  induction ks as [| [k l] ks IH]; intros st m t src port HI; simpl; [assumption|].
-  destruct (osc_rematch (m_addr m) k); try assumption.
-  - pose proof (Inv_call_all l st m t src port HI) as H1.
-    destruct (call_all st l m t src port) as [st1 o1]. simpl in H1.
-    pose proof (IH st1 m t src port H1) as H2.
-    destruct (dispatch_keys st1 ks m t src port) as [st2 o2]. simpl in *. assumption.
-  - apply IH. assumption.
-Qed.
+(* the repaired matching dispatcher is call_all over the matched registrations, in registration order *)
+Definition match_list (st : dstate) (m : omsg) : list wrapped :=
+  match matched_keys m (act_match st) with None => [] | Some ks => reg_entries st ks end.
+Lemma dmd_eq : forall st m t src port,
+  dispatch_match_d st m t src port = call_all st (match_list st m) m t src port.
+Proof. intros. unfold dispatch_match_d, match_list. destruct (matched_keys m (act_match st)); reflexivity. Qed.
 
 Lemma Inv_incoming : forall st m t src port, Inv st -> Inv (fst (incoming st m t src port)).
 Proof.
@@ -417,8 +413,8 @@ Proof.
   assert (H1 : Inv (fst (dispatch_exact_d st m t src port))).
   { unfold dispatch_exact_d. destruct (tbl_get (act_exact st) (m_addr m)); [apply Inv_call_all|]; assumption. }
   destruct (dispatch_exact_d st m t src port) as [st1 o1]. simpl in H1.
-  pose proof (Inv_dispatch_keys (act_match st1) st1 m t src port H1) as H2. unfold dispatch_match_d.
-  destruct (dispatch_keys st1 (act_match st1) m t src port) as [st2 o2]. simpl in *. assumption.
+  pose proof (Inv_call_all (match_list st1 m) st1 m t src port H1) as H2. rewrite dmd_eq.
+  destruct (call_all st1 (match_list st1 m) m t src port) as [st2 o2]. simpl in *. assumption.
 Qed.
 
 Lemma Inv_incoming_all : forall ms st src port, Inv st -> Inv (fst (incoming_all st ms src port)).
@@ -583,54 +579,101 @@ Proof.
   destruct (rmatch a k); destruct H; discriminate.
 Qed.
 
-Lemma dispatch_keys_spec : forall ks st m t src port,
-  map i_id (snd (dispatch_keys st ks m t src port))
-    = flat_map (fun kl => if matches m (fst kl) then filter (acc st m src port) (map w_id (snd kl)) else []) ks
-  /\ (forall id, enabled (fst (dispatch_keys st ks m t src port)) id = true -> enabled st id = true)
-  /\ (forall i, In i (snd (dispatch_keys st ks m t src port)) -> i_msg i = m /\ i_time i = t /\ i_src i = src /\ i_port i = port).
+Definition fires_m (st : dstate) (m : omsg) (src : Z * Z) (port : Z) (id : nat) : bool :=
+  match nth_error (resps st) id with
+  | Some r => r_enabled r && r_matching r && matches m (r_path r) && accepts r m src port
+  | None => false
+  end.
+
+Lemma existsb_bytes_in : forall p ks, existsb (bytes_eqb p) ks = true <-> In p ks.
 Proof.
-  induction ks as [| [k l] ks IH]; intros st m t src port; simpl.
-  - repeat split; auto; contradiction.
-  - unfold matches at 1. simpl. destruct (osc_rematch (m_addr m) k) eqn:E; simpl.
-    + destruct (call_all_spec l st m t src port) as (H1 & H2 & H3 & H4).
-      destruct (call_all st l m t src port) as [st1 o1]. simpl in *.
-      destruct (IH st1 m t src port) as (G1 & G2 & G3).
-      destruct (dispatch_keys st1 ks m t src port) as [st2 o2]. simpl in *.
-      repeat split.
-      * rewrite map_app, H1, G1. f_equal. apply flat_map_ext. intros [k' l']. simpl.
-        destruct (matches m k'); [apply filter_ext; assumption | reflexivity].
-      * intros id He. apply H3, G2. assumption.
-      * apply in_app_or in H as [Hi | Hi]; [apply (H4 _ Hi) | apply (G3 _ Hi)].
-      * apply in_app_or in H as [Hi | Hi]; [apply (H4 _ Hi) | apply (G3 _ Hi)].
-      * apply in_app_or in H as [Hi | Hi]; [apply (H4 _ Hi) | apply (G3 _ Hi)].
-      * apply in_app_or in H as [Hi | Hi]; [apply (H4 _ Hi) | apply (G3 _ Hi)].
-    + apply IH.
-    + repeat split; auto; try contradiction.
-      symmetry. clear IH. induction ks as [| [k' l'] ks IHk]; simpl; [reflexivity|].
-      unfold matches at 1. simpl.
-      destruct (osc_rematch (m_addr m) k') eqn:E'; simpl; try assumption.
-      exfalso. apply (rematch_error_uniform (m_addr m) k k'); [left; assumption | assumption].
-    + repeat split; auto; try contradiction.
-      symmetry. clear IH. induction ks as [| [k' l'] ks IHk]; simpl; [reflexivity|].
-      unfold matches at 1. simpl.
-      destruct (osc_rematch (m_addr m) k') eqn:E'; simpl; try assumption.
-      exfalso. apply (rematch_error_uniform (m_addr m) k k'); [right; assumption | assumption].
+  intros p ks. rewrite existsb_exists. split.
+  - intros (x & Hx & E). apply bytes_eqb_eq in E. subst. assumption.
+  - intro H. exists p. split; [assumption | apply bytes_eqb_refl].
 Qed.
 
+Lemma matched_keys_some : forall m t ks, matched_keys m t = Some ks ->
+  forall k, In k ks <-> (In k (keys t) /\ matches m k = true).
+Proof.
+  induction t as [| [k0 l0] t IH]; intros ks H k; simpl in H.
+  - inversion H; subst. simpl. split; [contradiction | intros [[] _]].
+  - destruct (osc_rematch (m_addr m) k0) eqn:E; try discriminate.
+    + destruct (matched_keys m t) as [l|] eqn:El; [|discriminate]. inversion H; subst. simpl. rewrite (IH l eq_refl k). split.
+      * intros [<- | [H1 H2]]; [split; [left; reflexivity | unfold matches; rewrite E; reflexivity] | split; [right; assumption | assumption]].
+      * intros [[<- | H1] H2]; [left; reflexivity | right; split; assumption].
+    + rewrite (IH ks H k). simpl. split.
+      * intros [H1 H2]. split; [right; assumption | assumption].
+      * intros [[<- | H1] H2]; [unfold matches in H2; rewrite E in H2; discriminate | split; assumption].
+Qed.
+Lemma matched_keys_none : forall m t, matched_keys m t = None -> forall k, matches m k = false.
+Proof.
+  induction t as [| [k0 l0] t IH]; simpl; [discriminate|].
+  destruct (osc_rematch (m_addr m) k0) eqn:E.
+  - destruct (matched_keys m t); [discriminate|]. intros _. apply IH. reflexivity.
+  - apply IH.
+  - intros _ k. unfold matches. destruct (osc_rematch (m_addr m) k) eqn:Ek; try reflexivity.
+    exfalso. apply (rematch_error_uniform (m_addr m) k0 k); [left; assumption | assumption].
+  - intros _ k. unfold matches. destruct (osc_rematch (m_addr m) k) eqn:Ek; try reflexivity.
+    exfalso. apply (rematch_error_uniform (m_addr m) k0 k); [right; assumption | assumption].
+Qed.
+
+Definition sel (st : dstate) (ks : list (list Z)) (id : nat) : bool :=
+  match nth_error (resps st) id with
+  | Some r => r_matching r && existsb (bytes_eqb (r_path r)) ks
+  | None => false
+  end.
+Lemma reg_entries_ids : forall st ks, map w_id (reg_entries st ks) = filter (sel st ks) (cmdp st).
+Proof.
+  intros st ks. unfold reg_entries. induction (cmdp st) as [| id l IH]; simpl; [reflexivity|].
+  rewrite map_app, IH. unfold sel at 2. destruct (nth_error (resps st) id) as [r|]; [|reflexivity].
+  destruct (r_matching r && existsb (bytes_eqb (r_path r)) ks); reflexivity.
+Qed.
+Lemma reg_entries_func : forall st ks w, In w (reg_entries st ks) ->
+  exists r, nth_error (resps st) (w_id w) = Some r /\ w_func w = r_func r.
+Proof.
+  intros st ks w H. unfold reg_entries in H. apply in_flat_map in H as (id & _ & H).
+  destruct (nth_error (resps st) id) as [r|] eqn:E; [|contradiction].
+  destruct (r_matching r && existsb (bytes_eqb (r_path r)) ks); [|contradiction].
+  destruct H as [<- | []]. simpl. exists r. auto.
+Qed.
+
+Lemma enabled_matching_path_is_key : forall st id r, Inv st -> nth_error (resps st) id = Some r ->
+  r_enabled r = true -> r_matching r = true -> In (r_path r) (keys (act_match st)).
+Proof.
+  intros st id r HI Er He Hm.
+  assert (Hc : In id (cmdp st)) by (apply (inv_enabled st HI); unfold enabled; rewrite Er; assumption).
+  pose proof (inv_tbl st HI true (r_path r)) as Ht. unfold ids_at, tbl in Ht.
+  destruct (tbl_get (act_match st) (r_path r)) as [l|] eqn:Eg.
+  - clear - Eg. induction (act_match st) as [| [k' l'] t IHt]; simpl in *; [discriminate|].
+    destruct (bytes_eqb (r_path r) k') eqn:E; [left; symmetry; apply bytes_eqb_eq; assumption | right; apply IHt; assumption].
+  - exfalso. assert (Hin : In id (filter (has_key st true (r_path r)) (cmdp st))).
+    { apply filter_In. split; [assumption|]. unfold has_key. rewrite Er, Hm, bytes_eqb_refl. reflexivity. }
+    rewrite <- Ht in Hin. contradiction.
+Qed.
+
+Lemma filter_all_false : forall (A : Type) (f : A -> bool) l, (forall x, In x l -> f x = false) -> filter f l = [].
+Proof.
+  induction l as [| x l IH]; intro H; simpl; [reflexivity|].
+  rewrite (H x (or_introl eq_refl)). apply IH. intros y Hy. apply H. right. assumption.
+Qed.
+
+(* THE matching dispatcher: exactly the firing matching responders, in ONE registration order *)
 Lemma match_ids : forall st m t src port, Inv st ->
-  map i_id (snd (dispatch_match_d st m t src port))
-    = flat_map (fun k => if matches m k then filter (fires st true k m src port) (cmdp st) else []) (keys (act_match st)).
+  map i_id (snd (dispatch_match_d st m t src port)) = filter (fires_m st m src port) (cmdp st).
 Proof.
   intros st m t src port HI. unfold dispatch_match_d.
-  destruct (dispatch_keys_spec (act_match st) st m t src port) as (H1 & _). rewrite H1.
-  unfold keys. rewrite flat_map_concat_map, (flat_map_concat_map _ (map fst (act_match st))), map_map. f_equal.
-  apply map_ext_in. intros [k l] Hi. simpl. destruct (matches m k); [|reflexivity].
-  rewrite <- fires_filter by assumption. rewrite <- filter_filter_and.
-  pose proof (inv_tbl st HI true k) as Ht. unfold tbl, ids_at in Ht.
-  rewrite (tbl_get_in (act_match st) k l (inv_keys st HI true) Hi) in Ht. rewrite Ht. reflexivity.
+  destruct (matched_keys m (act_match st)) as [ks|] eqn:E.
+  - rewrite (proj1 (call_all_spec (reg_entries st ks) st m t src port)), reg_entries_ids, filter_filter_and.
+    apply filter_ext_in_l. intros id Hc. apply (inv_enabled st HI) in Hc. unfold enabled in Hc.
+    unfold sel, acc, fires_m. destruct (nth_error (resps st) id) as [r|] eqn:Er; [|reflexivity].
+    rewrite Hc. simpl. destruct (r_matching r) eqn:Em; simpl; [|reflexivity].
+    f_equal. apply eq_true_iff_eq. rewrite existsb_bytes_in, (matched_keys_some m (act_match st) ks E (r_path r)).
+    split; [tauto|]. intro H. split; [eapply enabled_matching_path_is_key; eassumption | assumption].
+  - simpl. symmetry. apply filter_all_false. intros id _. unfold fires_m.
+    destruct (nth_error (resps st) id) as [r|]; [|reflexivity].
+    rewrite (matched_keys_none m (act_match st) E (r_path r)). rewrite andb_false_r. reflexivity.
 Qed.
 
-(* nothing that is not enabled is ever invoked; an incoming message enables nothing *)
 Lemma incoming_spec : forall st m t src port, Inv st ->
   (forall i, In i (snd (incoming st m t src port)) ->
       enabled st (i_id i) = true /\ i_msg i = m /\ i_time i = t /\ i_src i = src /\ i_port i = port)
@@ -645,9 +688,9 @@ Proof.
   assert (Hf1 : forall i, In i (snd (dispatch_exact_d st m t src port)) -> i_msg i = m /\ i_time i = t /\ i_src i = src /\ i_port i = port).
   { unfold dispatch_exact_d. destruct (tbl_get (act_exact st) (m_addr m)) as [l|]; [apply call_all_spec | simpl; contradiction]. }
   destruct (dispatch_exact_d st m t src port) as [st1 o1]. simpl in *.
-  pose proof (match_ids st1 m t src port Hinv1) as Hm. unfold dispatch_match_d in *.
-  destruct (dispatch_keys_spec (act_match st1) st1 m t src port) as (_ & Hmono2 & Hf2).
-  destruct (dispatch_keys st1 (act_match st1) m t src port) as [st2 o2]. simpl in *.
+  pose proof (match_ids st1 m t src port Hinv1) as Hm. rewrite dmd_eq in *.
+  destruct (call_all_spec (match_list st1 m) st1 m t src port) as (_ & _ & Hmono2 & Hf2).
+  destruct (call_all st1 (match_list st1 m) m t src port) as [st2 o2]. simpl in *.
   split.
   - intros i Hi. apply in_app_or in Hi as [Hi | Hi].
     + split; [|apply Hf1; assumption].
@@ -655,8 +698,7 @@ Proof.
       rewrite Hex in Hin. apply filter_In in Hin as [Hin _]. apply (inv_enabled st HI). assumption.
     + split; [|apply Hf2; assumption].
       assert (Hin : In (i_id i) (map i_id o2)) by (apply in_map; assumption).
-      rewrite Hm in Hin. apply in_flat_map in Hin as (k & _ & Hin).
-      destruct (matches m k); [|contradiction]. apply filter_In in Hin as [Hin _].
+      rewrite Hm in Hin. apply filter_In in Hin as [Hin _].
       apply Hmono1. apply (inv_enabled st1 Hinv1). assumption.
   - intros id He. apply Hmono1, Hmono2. assumption.
 Qed.
@@ -897,16 +939,6 @@ Proof.
   pose proof (IH st1 m t src port H1) as H2.
   destruct (call_all st1 l m t src port) as [st2 o2]. simpl in *. assumption.
 Qed.
-Lemma Inv2_dispatch_keys : forall ks st m t src port, Inv2 st -> Inv2 (fst (dispatch_keys st ks m t src port)).
-Proof.
-  induction ks as [| [k l] ks IH]; intros st m t src port HI; simpl; [assumption|].
-  destruct (osc_rematch (m_addr m) k); try assumption.
-  - pose proof (Inv2_call_all l st m t src port HI) as H1.
-    destruct (call_all st l m t src port) as [st1 o1]. simpl in H1.
-    pose proof (IH st1 m t src port H1) as H2.
-    destruct (dispatch_keys st1 ks m t src port) as [st2 o2]. simpl in *. assumption.
-  - apply IH. assumption.
-Qed.
 Lemma Inv2_exact_d : forall st m t src port, Inv2 st -> Inv2 (fst (dispatch_exact_d st m t src port)).
 Proof.
   intros. unfold dispatch_exact_d. destruct (tbl_get (act_exact st) (m_addr m)); [apply Inv2_call_all|]; assumption.
@@ -916,8 +948,8 @@ Proof.
   intros st m t src port HI. unfold incoming.
   pose proof (Inv2_exact_d st m t src port HI) as H1.
   destruct (dispatch_exact_d st m t src port) as [st1 o1]. simpl in H1.
-  pose proof (Inv2_dispatch_keys (act_match st1) st1 m t src port H1) as H2. unfold dispatch_match_d.
-  destruct (dispatch_keys st1 (act_match st1) m t src port) as [st2 o2]. simpl in *. assumption.
+  pose proof (Inv2_call_all (match_list st1 m) st1 m t src port H1) as H2. rewrite dmd_eq.
+  destruct (call_all st1 (match_list st1 m) m t src port) as [st2 o2]. simpl in *. assumption.
 Qed.
 Lemma Inv2_incoming_all : forall ms st src port, Inv2 st -> Inv2 (fst (incoming_all st ms src port)).
 Proof.
@@ -979,21 +1011,10 @@ Proof.
     intros i Hi. destruct (H1 i Hi) as (w' & Hw' & Hid & Htag). exists w'. repeat split; [right; assumption | assumption | assumption].
 Qed.
 
-Lemma dispatch_keys_tags : forall ks st m t src port,
-  (forall i, In i (snd (dispatch_keys st ks m t src port)) ->
-     exists k l w, In (k, l) ks /\ In w l /\ i_id i = w_id w /\ i_tag i = user_tag (w_func w)).
+Lemma match_list_func : forall st m w, In w (match_list st m) -> rfunc st (w_id w) = Some (w_func w).
 Proof.
-  induction ks as [| [k l] ks IH]; intros st m t src port; simpl; [contradiction|].
-  destruct (osc_rematch (m_addr m) k); simpl; try contradiction.
-  - destruct (call_all_tags l st m t src port) as [H1 _].
-    destruct (call_all st l m t src port) as [st1 o1]. simpl in *.
-    pose proof (IH st1 m t src port) as H2.
-    destruct (dispatch_keys st1 ks m t src port) as [st2 o2]. simpl in *.
-    intros i Hi. apply in_app_or in Hi as [Hi | Hi].
-    + destruct (H1 i Hi) as (w & Hw & Hid & Htag). exists k, l, w. repeat split; [left; reflexivity | assumption | assumption | assumption].
-    + destruct (H2 i Hi) as (k' & l' & w & Hkl & Hw & Hid & Htag). exists k', l', w. repeat split; [right; assumption | assumption | assumption | assumption].
-  - intros i Hi. destruct (IH st m t src port i Hi) as (k' & l' & w & Hkl & Hw & Hid & Htag).
-    exists k', l', w. repeat split; [right; assumption | assumption | assumption | assumption].
+  intros st m w H. unfold match_list in H. destruct (matched_keys m (act_match st)) as [ks|]; [|contradiction].
+  destruct (reg_entries_func st ks w H) as (r & E & Ef). unfold rfunc. rewrite E, Ef. reflexivity.
 Qed.
 
 Lemma tbl_get_entries : forall t k l, tbl_get t k = Some l -> forall w, In w l -> In w (entries t).
@@ -1015,8 +1036,9 @@ Proof.
   assert (Hrf : forall id, rfunc (fst (dispatch_exact_d st m t src port)) id = rfunc st id).
   { unfold dispatch_exact_d. destruct (tbl_get (act_exact st) (m_addr m)) as [l|]; [apply call_all_tags | reflexivity]. }
   destruct (dispatch_exact_d st m t src port) as [st1 o1]. simpl in *.
-  pose proof (dispatch_keys_tags (act_match st1) st1 m t src port) as Hm. unfold dispatch_match_d in Hi.
-  destruct (dispatch_keys st1 (act_match st1) m t src port) as [st2 o2]. simpl in *.
+  pose proof (proj1 (call_all_tags (match_list st1 m) st1 m t src port)) as Hm. rewrite dmd_eq in Hi.
+  pose proof (match_list_func st1 m) as Hlf.
+  destruct (call_all st1 (match_list st1 m) m t src port) as [st2 o2]. simpl in *.
   assert (Hfin : forall w (st' : dstate), rfunc st' (w_id w) = Some (w_func w) -> (forall id, rfunc st' id = rfunc st id) ->
                  i_id i = w_id w -> i_tag i = user_tag (w_func w) ->
                  exists r, nth_error (resps st) (i_id i) = Some r /\ i_tag i = user_tag (r_func r)).
@@ -1026,17 +1048,11 @@ Proof.
   apply in_app_or in Hi as [Hi | Hi].
   - destruct (Hex i Hi) as (w & Hw & Hid & Htag). destruct HI2 as [_ HF].
     apply (Hfin w st); [apply (HF false w Hw) | reflexivity | assumption | assumption].
-  - destruct (Hm i Hi) as (k & l & w & Hkl & Hw & Hid & Htag).
-    apply (Hfin w st1); [apply (HF1 true w); apply in_flat_map; exists (k, l); auto | assumption | assumption | assumption].
+  - destruct (Hm i Hi) as (w & Hw & Hid & Htag).
+    apply (Hfin w st1); [apply Hlf; assumption | assumption | assumption | assumption].
 Qed.
 
 (* ---- matching dispatcher: exactly the right responders, each once --------------------------------------------- *)
-Definition fires_m (st : dstate) (m : omsg) (src : Z * Z) (port : Z) (id : nat) : bool :=
-  match nth_error (resps st) id with
-  | Some r => r_enabled r && r_matching r && matches m (r_path r) && accepts r m src port
-  | None => false
-  end.
-
 Lemma NoDup_app_disj : forall (A : Type) (l1 l2 : list A), NoDup l1 -> NoDup l2 -> (forall x, In x l1 -> ~ In x l2) -> NoDup (l1 ++ l2).
 Proof.
   induction l1 as [| x l1 IH]; intros l2 H1 H2 Hd; simpl; [assumption|].
@@ -1070,32 +1086,8 @@ Lemma match_exactly_once : forall st m t src port, Inv st ->
   /\ forall id, In id (map i_id (snd (dispatch_match_d st m t src port))) <-> fires_m st m src port id = true.
 Proof.
   intros st m t src port HI. rewrite match_ids by assumption. split.
-  - apply NoDup_flat_map_disj.
-    + apply (inv_keys st HI true).
-    + intros k _. destruct (matches m k); [apply NoDup_filter, (inv_nodup st HI) | constructor].
-    + intros k1 k2 x _ _ H1 H2.
-      destruct (matches m k1); [|contradiction]. destruct (matches m k2); [|contradiction].
-      apply filter_In in H1 as [_ H1]. apply filter_In in H2 as [_ H2].
-      apply fires_path in H1 as (r1 & E1 & P1). apply fires_path in H2 as (r2 & E2 & P2). congruence.
-  - intro id. rewrite in_flat_map. split.
-    + intros (k & Hk & Hin). destruct (matches m k) eqn:Em; [|contradiction].
-      apply filter_In in Hin as [_ Hf]. destruct (fires_path _ _ _ _ _ _ _ Hf) as (r & Er & Pk).
-      unfold fires in Hf. unfold fires_m. rewrite Er in *. subst k. rewrite Em.
-      apply andb_true_iff in Hf as [Hf Ha]. apply andb_true_iff in Hf as [Hf _]. apply andb_true_iff in Hf as [He Hm].
-      apply eqb_prop in Hm. rewrite He, Hm, Ha. reflexivity.
-    + intro Hf. unfold fires_m in Hf. destruct (nth_error (resps st) id) as [r|] eqn:Er; [|discriminate].
-      apply andb_true_iff in Hf as [Hf Ha]. apply andb_true_iff in Hf as [Hf Hmt]. apply andb_true_iff in Hf as [He Hm].
-      assert (Hc : In id (cmdp st)) by (apply (inv_enabled st HI); unfold enabled; rewrite Er; assumption).
-      assert (Hfire : fires st true (r_path r) m src port id = true).
-      { unfold fires. rewrite Er, He, Hm, Ha, bytes_eqb_refl. reflexivity. }
-      exists (r_path r). split.
-      * (* the path is a key of the table because the responder is registered under it *)
-        pose proof (inv_tbl st HI true (r_path r)) as Ht. unfold ids_at, tbl in Ht.
-        destruct (tbl_get (act_match st) (r_path r)) as [l|] eqn:Eg.
-        -- clear - Eg. induction (act_match st) as [| [k' l'] t IHt]; simpl in *; [discriminate|].
-           destruct (bytes_eqb (r_path r) k') eqn:E; [left; symmetry; apply bytes_eqb_eq; assumption | right; apply IHt; assumption].
-        -- exfalso. assert (Hin : In id (filter (has_key st true (r_path r)) (cmdp st))).
-           { apply filter_In. split; [assumption|]. unfold has_key. rewrite Er, Hm, bytes_eqb_refl. reflexivity. }
-           rewrite <- Ht in Hin. contradiction.
-      * rewrite Hmt. apply filter_In. split; assumption.
+  - apply NoDup_filter, (inv_nodup st HI).
+  - intro id. rewrite filter_In. split; [tauto|]. intro Hf. split; [|assumption].
+    apply (inv_enabled st HI). unfold enabled, fires_m in *. destruct (nth_error (resps st) id) as [r|]; [|discriminate].
+    destruct (r_enabled r); [reflexivity | discriminate].
 Qed.
